@@ -179,4 +179,5 @@ func genC17(tier string, rng *Rng) {
 			runOp(args)
 		}
 	}
+	genC17x(tier, rng) // extension (c17x.go): dates, cookies with expires, Args / cookie / URI programs
 }
